@@ -135,6 +135,10 @@ def readback(ctx, files, spec=None, timeout=60.0):
     return res
 
 
+class SiteMismatch(SyntaxError):
+    pass
+
+
 def site_map(files, orders):
     """{(filename, sid): SiteCall} from the current texts; raises SyntaxError if a file does not parse"""
     out = {}
@@ -144,7 +148,8 @@ def site_map(files, orders):
             text = text.decode("utf-8")
         calls = P.find_sites(text)
         if len(calls) != len(order):
-            raise HarnessError(f"{fn}: expected {len(order)} outermost snapshot() calls, found {len(calls)}")
+            # a rewrite never adds or removes an outermost snapshot() call: a file where it did is as broken as one that does not parse
+            raise SiteMismatch(f"{fn}: expected {len(order)} outermost snapshot() calls, found {len(calls)}")
         for sid, c in zip(order, calls):
             out[(fn, sid)] = c
     return out
@@ -166,3 +171,28 @@ def rec_by_eid(rec):
     for eid, v in rec:
         d.setdefault(eid, []).append(v)
     return d
+
+
+def exc_signature(tb):
+    """'<ExcType>@<innermost inline_snapshot function>' from a traceback text"""
+    import re
+
+    tb = tb or ""
+    m = re.findall(r'File "[^"]*inline_snapshot/([^"]+)", line \d+, in (\w+)', tb)
+    last = tb.strip().splitlines()[-1] if tb.strip() else ""
+    et = re.match(r"([A-Za-z_.]+)", last)
+    name = et.group(1).split(".")[-1] if et else "Exception"
+    where = f"{m[-1][0].split('/')[-1]}:{m[-1][1]}" if m else "?"
+    return f"{name}@{where}"
+
+
+def completion_violation(driver, res, context=""):
+    """a session with approved changes that dies in session-finish applies nothing: for the properties that speak about the
+    outcome of such a run this is a violation of theirs as well (not only of C18)"""
+    if driver == "plugin":
+        tb = res.get("finish_exc") or res.get("main_exc")
+        if tb is None:
+            tb = "\n".join(l for l in res.get("out", "").splitlines() if "INTERNALERROR" in l)[-3000:] or f"status={res.get('status')} rc={res.get('rc')}"
+    else:
+        tb = res.get("exc_tb") or str(res.get("exc")) or f"status={res.get('status')}"
+    return {"clause": "session-completes", "sig": "session-died:" + exc_signature(tb), "detail": f"{context} driver={driver}: the session did not complete, nothing it approved was applied\n{tb[-1800:]}"}
